@@ -586,6 +586,9 @@ def main(module, argv=None):
             print("... %d more violation signatures (replay files written)" % (len(bysig) - 40))
 
         minimum = 1 if args.replay else module.MIN_NONTRIVIAL.get(tier, 2)
+        if merged["counters"].get("generator_errors", 0) > max(20, 0.01 * merged.get("evaluations", 0)):
+            inconclusive.append("%d generator errors (cases that could not be generated): %s" % (
+                merged["counters"]["generator_errors"], " | ".join(n for n in merged.get("notes", []) if "generator error" in n)[:600]))
         if merged["counters"].get("harness_errors", 0):
             inconclusive.append("%d harness errors: %s" % (merged["counters"]["harness_errors"],
                                                           " | ".join(n for n in merged["notes"] if "harness error" in n)[:1500]))
